@@ -280,6 +280,24 @@ example :
     (itstatSetup 1 2 0 (some ([] : List (String × Nat)))).func = some 2 := by
   decide
 
+/-- **The `Objective` column**: present iff the optimiser's `_objective_evaluatable()` holds, and then
+    it is the third column, evaluated by `objective()`; `_objective_evaluatable()` holds iff every
+    functional that is present can be evaluated (ADMM also without `f`). -/
+theorem C15_objective_column (c : OptClass) (sv : AdmmSolver) (fGiven fHas : Bool) (gs : List Bool) :
+    let obj := objectiveEvaluable c fGiven fHas gs
+    ("Objective" ∈ fieldNames c sv obj ↔ obj = true) ∧
+      (obj = true → (fieldSpecs c sv obj)[2]? = some ⟨"Objective", "%9.3e", "objective()"⟩) ∧
+      (obj = true ↔ ((c = .admm ∧ fGiven = false) ∨ fHas = true) ∧ ∀ g ∈ gs, g = true) := by
+  intro obj
+  refine ⟨?_, ?_, ?_⟩
+  · cases c <;> cases sv <;> cases obj <;> decide
+  · intro h; rw [h]; cases c <;> cases sv <;> decide
+  · show objectiveEvaluable c fGiven fHas gs = true ↔ _
+    cases c <;> cases fGiven <;> cases fHas <;> simp [objectiveEvaluable]
+
+example : objectiveEvaluable .admm false false [true, true] = true ∧ objectiveEvaluable .pdhg true true [false] = false := by
+  decide
+
 /-- **Statistics columns**: for every optimiser class, sub-problem solver and objective flag the
     column names are pairwise distinct and so are the attribute expressions (one value per column,
     `namedtuple` accepts the names), the record starts with `Iter` (`itnum`) and `Time`
